@@ -2,8 +2,8 @@
 Fork-based case runner.
 
 The parent imports ``yaw`` once (warm) and never runs a simulation itself; it
-forks short-lived children that each execute a batch of cases and stream their
-results back over a pipe.  A child that hangs is killed by its own
+forks short-lived children that each supervise a batch of cases -- every case in a
+process of its own -- and stream the results back over a pipe.  A child that hangs is killed by its own
 ``faulthandler`` watchdog (traceback to stderr) or, failing that, by the parent
 through its PID; the case it was working on is reported as ``harness_error`` --
 a wall-clock kill never turns into a pass.
@@ -22,28 +22,44 @@ import time
 import traceback
 
 
-def _child(batch, fn, wfd: int, case_timeout: float) -> None:
+def _run_one(idx, item, fn, wfd: int, case_timeout: float) -> None:
+    faulthandler.dump_traceback_later(case_timeout, exit=True)
+    t0 = time.perf_counter()
     try:
-        out = os.fdopen(wfd, "wb", buffering=0)
+        res = fn(item)
+    except BaseException as err:  # noqa: BLE001 - harness failure, reported
+        res = dict(
+            verdict="harness_error",
+            error=f"{type(err).__name__}: {err}",
+            traceback=traceback.format_exc()[-4000:],
+        )
+    faulthandler.cancel_dump_traceback_later()
+    res.setdefault("wall_s", time.perf_counter() - t0)
+    blob = pickle.dumps((idx, res))
+    data = struct.pack("<I", len(blob)) + blob
+    while data:
+        n = os.write(wfd, data)
+        data = data[n:]
+
+
+def _child(batch, fn, wfd: int, case_timeout: float) -> None:
+    """A batch child only supervises: every case runs in a process of its own, forked from this
+    (pristine: imports only) process, so that no module-level state of the library survives from
+    one case into the next one."""
+    try:
         for idx, item in batch:
-            faulthandler.dump_traceback_later(case_timeout, exit=True)
-            t0 = time.perf_counter()
-            try:
-                res = fn(item)
-            except BaseException as err:  # noqa: BLE001 - harness failure, reported
-                res = dict(
-                    verdict="harness_error",
-                    error=f"{type(err).__name__}: {err}",
-                    traceback=traceback.format_exc()[-4000:],
-                )
-            faulthandler.cancel_dump_traceback_later()
-            res.setdefault("wall_s", time.perf_counter() - t0)
-            blob = pickle.dumps((idx, res))
-            out.write(struct.pack("<I", len(blob)) + blob)
-        out.close()
+            sys.stdout.flush()
+            sys.stderr.flush()
+            pid = os.fork()
+            if pid == 0:
+                try:
+                    _run_one(idx, item, fn, wfd, case_timeout)
+                finally:
+                    sys.stdout.flush()
+                    sys.stderr.flush()
+                    os._exit(0)
+            os.waitpid(pid, 0)
     finally:
-        sys.stdout.flush()
-        sys.stderr.flush()
         os._exit(0)
 
 
